@@ -179,4 +179,417 @@ def arith_tables(h):
     h.write("ArithTables", "\n".join(out))
 
 
-TABLES = {"ArithTables": arith_tables}
+# --------------------------------------------------------------------------------------------------
+# ArithEvalTables: the match-arm lists, constants and error enums of eval.rs / token.rs / lib.rs and of the
+# shell's glue (yash-semantics/src/expansion/initial/arith.rs) that Model.lean / Shell.lean transcribe.
+# Arms are read with a brace-aware splitter (block bodies), keyed by operator name (so the order of arms,
+# `A | B` patterns vs separate arms and `Type::` prefixes do not matter); the BODY of an arm is classified by
+# its text after white space is removed: a body that is none of the known shapes is a loud failure.
+
+
+def _nows(t):
+    return re.sub(r"\s+", "", t)
+
+
+def _split_top(text, sep=","):
+    """split at `sep` outside (), [], {}, strings and char literals"""
+    out, depth, cur, i = [], 0, "", 0
+    while i < len(text):
+        c = text[i]
+        if c == '"':
+            j = i + 1
+            while text[j] != '"':
+                j += 2 if text[j] == "\\" else 1
+            cur += text[i:j + 1]
+            i = j + 1
+            continue
+        if c == "'" and re.match(r"'(\\.|[^\\'])'", text[i:]):
+            m = re.match(r"'(\\.|[^\\'])'", text[i:])
+            cur += m.group(0)
+            i += m.end()
+            continue
+        if c in "([{":
+            depth += 1
+        elif c in ")]}":
+            depth -= 1
+        if c == sep and depth == 0:
+            out.append(cur)
+            cur = ""
+        else:
+            cur += c
+        i += 1
+    if cur.strip():
+        out.append(cur)
+    return out
+
+
+def _arms(h, body, what):
+    """arms of a `match` body (text between its braces): list of (pattern, value); a value that is a block
+    `{ ... }` need not be followed by a comma"""
+    arms, i, n = [], 0, len(body)
+    while True:
+        while i < n and body[i] in " \t\r\n,":
+            i += 1
+        if i >= n:
+            break
+        j = body.find("=>", i)
+        if j < 0:
+            h.fail(f"{what}: text after the last arm: {body[i:i + 40]!r}")
+        pat = body[i:j]
+        k = j + 2
+        while k < n and body[k] in " \t\r\n":
+            k += 1
+        if k < n and body[k] == "{":
+            depth, m = 0, k
+            while m < n:
+                if body[m] == "{":
+                    depth += 1
+                elif body[m] == "}":
+                    depth -= 1
+                    if depth == 0:
+                        break
+                m += 1
+            if depth != 0:
+                h.fail(f"{what}: unbalanced block in arm {pat.strip()!r}")
+            val, i = body[k + 1:m], m + 1
+        else:
+            depth, m = 0, k
+            while m < n and not (body[m] == "," and depth == 0):
+                if body[m] in "([{":
+                    depth += 1
+                elif body[m] in ")]}":
+                    depth -= 1
+                m += 1
+            val, i = body[k:m], m + 1
+        arms.append((" ".join(pat.split()), val.strip()))
+    if not arms:
+        h.fail(f"{what}: no arms")
+    return arms
+
+
+def _fn_body(h, src, name):
+    return _strip_comments(h.item_body(src, r"\bfn\s+" + name + r"\b[^{;]*(?=\{)", f"fn {name}"))
+
+
+def _match_on(h, body, subject, what):
+    m = re.search(r"\bmatch\s+" + subject + r"\s*\{", body)
+    if not m:
+        h.fail(f"{what}: `match {subject}` not found")
+    return h.item_body(body[m.start():], r"match\s+" + subject, what)
+
+
+def _by_operator(h, arms, variants, classify, what):
+    """total map variant -> class; every variant must be covered exactly by explicit patterns (no wildcard)"""
+    res = {}
+    for pat, val in arms:
+        cls = classify(val)
+        if cls is None:
+            h.fail(f"{what}: cannot classify the arm `{pat}` with body {_nows(val)[:160]!r}")
+        for p in pat.split("|"):
+            p = p.strip().split("::")[-1]
+            if p not in variants:
+                h.fail(f"{what}: unknown variant {p!r} in pattern `{pat}`")
+            res.setdefault(p, cls)
+    for v in variants:
+        if v not in res:
+            h.fail(f"{what}: variant {v} has no arm")
+    return res
+
+
+_ARM_SHAPES = {
+    "values": ["letlhs=into_value(lhs,env)?;letrhs=into_value(rhs,env)?;binary_result(lhs,rhs,operator,op_location)"],
+    "assign": ["let(name,location)=require_variable(lhs,op_location)?;letvalue=into_value(rhs,env)?;"
+               "assign(name,value,location,env)"],
+    "compound": ["let(name,location)=require_variable(lhs,op_location)?;letlhs=expand_variable(name,&location,env)?;"
+                 "letrhs=into_value(rhs,env)?;letresult=binary_result(lhs,rhs,operator,op_location)?;"
+                 "assign(name,result,location,env)"],
+}
+
+_SHL = ("iflhs<0{returnErr(Error{cause:EvalError::LeftShiftingNegative,location:op_location.clone(),});}"
+        "letrhs=require_non_negative(rhs,op_location)?;lhs.checked_shl(rhs).filter(|&result|result>=0&&result>>rhs==lhs)")
+_OP_SHAPES = {
+    "lor": ["Some((lhs!=0||rhs!=0)as_)"],
+    "land": ["Some((lhs!=0&&rhs!=0)as_)"],
+    "bor": ["Some(lhs|rhs)"],
+    "bxor": ["Some(lhs^rhs)"],
+    "band": ["Some(lhs&rhs)"],
+    "eq": ["Some((lhs==rhs)as_)"],
+    "ne": ["Some((lhs!=rhs)as_)"],
+    "lt": ["Some((lhs<rhs)as_)"],
+    "gt": ["Some((lhs>rhs)as_)"],
+    "le": ["Some((lhs<=rhs)as_)"],
+    "ge": ["Some((lhs>=rhs)as_)"],
+    "shl": [_SHL, _SHL.replace("location:op_location.clone(),}", "location:op_location.clone()}")],
+    "shr": ["letrhs=require_non_negative(rhs,op_location)?;lhs.checked_shr(rhs)"],
+    "add": ["lhs.checked_add(rhs)"],
+    "sub": ["lhs.checked_sub(rhs)"],
+    "mul": ["lhs.checked_mul(rhs)"],
+    "div": ["require_non_zero(rhs,op_location)?;lhs.checked_div(rhs)"],
+    "rem": ["require_non_zero(rhs,op_location)?;lhs.checked_rem(rhs)"],
+    "second": ["Some(rhs)"],
+}
+
+
+def _classifier(shapes):
+    def f(val):
+        t = _nows(val)
+        for cls, alts in shapes.items():
+            if t in alts:
+                return cls
+        return None
+    return f
+
+
+def _radix(h, t, what):
+    t = t.strip()
+    for pre, base in (("0x", 16), ("0X", 16), ("0o", 8), ("0b", 2)):
+        if t.startswith(pre):
+            return int(t[2:].replace("_", ""), base)
+    if re.fullmatch(r"[0-9_]+", t):
+        return int(t.replace("_", ""))
+    h.fail(f"{what}: cannot read the radix {t!r}")
+
+
+def _radix_chain(h, body, kind, what):
+    """the `if let Some(x) = T.strip_prefix("P") {A} else if ... else if S.starts_with('0') {B} else {C}` chain:
+    returns ([(prefix, stripped, radix)], default radix).  kind = 'constant' (bodies are calls of
+    from_str_radix / parse) | 'value' (bodies are `(digits, radix)` pairs)"""
+    m = re.search(r"=\s*if\s+let\s+Some\(", body)
+    if not m:
+        h.fail(f"{what}: the radix chain was not found")
+    i = m.start() + 1
+    rules, default = [], None
+    rest = body[i:]
+    while True:
+        rest = rest.lstrip()
+        if rest.startswith("if"):
+            brace = rest.index("{")
+            cond = _nows(rest[2:brace])
+            blk = h.item_body(rest[brace:], r"", what)
+            after = rest[brace + len(blk) + 2:].lstrip()
+            mm = re.fullmatch(r'letSome\((\w+)\)=(\w+)\.strip_prefix\("([^"\\]+)"\)', cond)
+            ms = re.fullmatch(r"(\w+)\.starts_with\('([^'\\])'\)", cond)
+            b = _nows(blk)
+            if mm:
+                var, subj, pre = mm.groups()
+                if kind == "constant":
+                    mb = re.fullmatch(r"i64::from_str_radix\(" + var + r",(\w+)\)", b)
+                else:
+                    mb = re.fullmatch(r"\(" + var + r",(\w+)\)", b)
+                if not mb:
+                    h.fail(f"{what}: cannot read the body {b!r} of the rule for prefix {pre!r}")
+                rules.append((pre, True, _radix(h, mb.group(1), what)))
+            elif ms:
+                subj, ch = ms.groups()
+                if kind == "constant":
+                    mb = re.fullmatch(r"i64::from_str_radix\(token,(\w+)\)", b)
+                else:
+                    mb = re.fullmatch(r"\(" + subj + r",(\w+)\)", b)
+                if not mb:
+                    h.fail(f"{what}: cannot read the body {b!r} of the rule for first character {ch!r}")
+                rules.append((ch, False, _radix(h, mb.group(1), what)))
+            else:
+                h.fail(f"{what}: cannot read the condition {cond!r}")
+            if not after.startswith("else"):
+                h.fail(f"{what}: the radix chain has no final else")
+            rest = after[4:]
+        elif rest.startswith("{"):
+            b = _nows(h.item_body(rest, r"", what))
+            if kind == "constant":
+                if b == "token.parse()":
+                    default = 10
+                else:
+                    mb = re.fullmatch(r"i64::from_str_radix\(token,(\w+)\)", b)
+                    if not mb:
+                        h.fail(f"{what}: cannot read the default {b!r}")
+                    default = _radix(h, mb.group(1), what)
+            else:
+                mb = re.fullmatch(r"\(\w+,(\w+)\)", b)
+                if not mb:
+                    h.fail(f"{what}: cannot read the default {b!r}")
+                default = _radix(h, mb.group(1), what)
+            break
+        else:
+            h.fail(f"{what}: unexpected text in the radix chain: {rest[:40]!r}")
+    return rules, default
+
+
+def _enum_names(h, src, name, what):
+    """variant names of an enum whose variants may carry fields and attributes"""
+    body = _strip_comments(h.item_body(src, r"\benum\s+" + name + r"\b[^{]*", what))
+    body = re.sub(r"#\[[^\]]*\]", "", body)
+    vs = []
+    for item in _split_top(body):
+        m = re.match(r"\s*([A-Za-z_]\w*)", item)
+        if not m:
+            h.fail(f"{what}: cannot read variant {item.strip()[:40]!r}")
+        vs.append(m.group(1))
+    if not vs:
+        h.fail(f"{what}: no variants")
+    return vs
+
+
+def arith_eval_tables(h):
+    tok = h.read("yash-arith/src/token.rs")
+    ast = h.read("yash-arith/src/ast.rs")
+    ev = h.read("yash-arith/src/eval.rs")
+    port = h.read("yash-arith/src/ast/portability.rs")
+    glue = h.read("yash-semantics/src/expansion/initial/arith.rs")
+
+    binary_ops = _enum_variants(h, ast, "BinaryOperator")
+
+    # apply_binary: which arm an operator takes
+    ab = _fn_body(h, ev, "apply_binary")
+    arm_of = _by_operator(h, _arms(h, _match_on(h, ab, "operator", "apply_binary"), "apply_binary"), binary_ops,
+                          _classifier(_ARM_SHAPES), "apply_binary")
+
+    # binary_result: which operation an operator computes
+    br = _fn_body(h, ev, "binary_result")
+    op_of = _by_operator(h, _arms(h, _match_on(h, br, "operator", "binary_result"), "binary_result"), binary_ops,
+                         _classifier(_OP_SHAPES), "binary_result")
+    tail = _nows(br[br.rindex("};"):]) if "};" in br else ""
+    if tail != "};letresult=unwrap_or_overflow(result,op_location)?;Ok(Value::Integer(result))":
+        h.fail(f"binary_result: the text after the match is not `unwrap_or_overflow(result)?; Ok(..)`: {tail[:120]!r}")
+
+    # require_non_negative: the unsigned type of a shift count, and the order of its two causes
+    m = re.search(r"fn\s+require_non_negative\s*<[^>]*>\s*\(\s*v\s*:\s*i64\s*,[^)]*\)\s*->\s*Result<\s*u(\d+)\s*,", br)
+    if not m:
+        h.fail("require_non_negative: signature `(v: i64, ..) -> Result<u<bits>, ..>` not found")
+    bits = int(m.group(1))
+    rnn = _nows(h.item_body(br[m.start():], r"fn\s+require_non_negative[^{]*", "require_non_negative"))
+    if "cause:ifv<0{EvalError::ReverseShifting}else{EvalError::Overflow}" not in rnn or not rnn.startswith("v.try_into().map_err("):
+        h.fail(f"require_non_negative: unexpected body {rnn[:160]!r}")
+    rnz = _nows(h.item_body(br, r"fn\s+require_non_zero[^{]*", "require_non_zero"))
+    if not re.fullmatch(r"ifv!=0\{Ok\(\(\)\)\}else\{Err\(Error\{cause:EvalError::DivisionByZero,location:location\.clone\(\),?\}\)\}", rnz):
+        h.fail(f"require_non_zero: unexpected body {rnz[:160]!r}")
+
+    eval_errors = _enum_names(h, ev, "EvalError", "enum EvalError")
+    syntax_errors = _enum_names(h, ast, "SyntaxError", "enum SyntaxError")
+    token_errors = _enum_names(h, tok, "TokenError", "enum TokenError")
+    port_errors = _enum_names(h, port, "PortabilityError", "enum PortabilityError")
+
+    nt = _fn_body(h, tok, "next_token")
+    crules, cdefault = _radix_chain(h, nt[nt.index("let parse"):] if "let parse" in nt else h.fail("next_token: `let parse` not found"),
+                                    "constant", "next_token")
+    pi = _fn_body(h, ev, "parse_integer")
+    k = pi.find("let (digits, radix)")
+    if k < 0:
+        h.fail("parse_integer: `let (digits, radix)` not found")
+    vrules, vdefault = _radix_chain(h, pi[k:], "value", "parse_integer")
+
+    # characters of a term
+    k = nt.find("trim_start_matches")
+    if k < 0:
+        h.fail("next_token: `trim_start_matches` (the term character class) not found")
+    arg = h.item_body(nt[k:], r"trim_start_matches", "next_token: trim_start_matches(..)")
+    m = re.fullmatch(r"\s*\|\s*c\s*(?::\s*char\s*)?\|(.*)", arg, flags=re.S)
+    if not m:
+        h.fail(f"next_token: the term character class is not a closure `|c: char| ..`: {arg[:80]!r}")
+    parts = [_nows(x) for x in m.group(1).split("||")]
+    if "c.is_alphanumeric()" not in parts:
+        h.fail(f"next_token: the term character class {parts} lacks c.is_alphanumeric()")
+    extra = []
+    for q in parts:
+        if q == "c.is_alphanumeric()":
+            continue
+        mm = re.fullmatch(r"c=='(\\?.)'", q)
+        if not mm:
+            h.fail(f"next_token: cannot read the term character condition {q!r}")
+        extra.append(h.rust_char(mm.group(1)))
+    if not re.search(r"first_char\.is_ascii_digit\(\)", nt):
+        h.fail("next_token: `first_char.is_ascii_digit()` (constant or variable) not found")
+
+    # convert_error_cause
+    cc = _fn_body(h, glue, "convert_error_cause")
+    conv, fallback = [], None
+    for pat, val in _arms(h, _match_on(h, cc, "cause", "convert_error_cause"), "convert_error_cause"):
+        p = _nows(pat)
+        # the path of the pattern: `EC::<group>(XX::<variant>(YY::<variant>..))`; fields and bindings are ignored
+        segs = re.findall(r"(\w+)::(\w+)", p)
+        v = _nows(val)
+        m = len(segs) >= 2 and segs[0][0] == "EC"
+        if m:
+            group, leaf = segs[0][1], segs[-1][1]
+            mv = re.search(r"ErrorCause::ArithError\((\w+)", v)
+            if mv:
+                target = "ArithError." + mv.group(1)
+            else:
+                mv = re.search(r"ErrorCause::(\w+)", v)
+                if not mv:
+                    h.fail(f"convert_error_cause: cannot read the value of arm `{pat}`")
+                target = mv.group(1)
+            conv.append((group, leaf, target))
+        elif re.fullmatch(r"\w+", p):
+            mv = re.search(r"ErrorCause::ArithError\((\w+)", v)
+            if not mv:
+                h.fail("convert_error_cause: cannot read the fallback arm")
+            fallback = mv.group(1)
+        else:
+            h.fail(f"convert_error_cause: cannot read the pattern `{pat}`")
+    if fallback is None:
+        h.fail("convert_error_cause: no fallback arm")
+
+    out = []
+    out.append("open YashModel.Generated.ArithTables\n")
+    out.append("/-- which arm of `apply_binary` (eval.rs) an operator takes: both operands as values | plain\n"
+               "    assignment | compound assignment (recognised by the body of the arm) -/")
+    out.append("inductive Arm where\n  | values | assign | compound\n  deriving DecidableEq, Repr\n")
+    out.append("/-- the operation an arm of `binary_result` (eval.rs) computes, recognised by the body of the arm -/")
+    out.append("inductive Op where\n  | " + " | ".join(sorted(_OP_SHAPES)) + "\n  deriving DecidableEq, Repr\n")
+    out.append("/-- `apply_binary`: operator ↦ arm -/")
+    out.append("def applyBinaryArm : BinaryOperator → Arm")
+    for o in binary_ops:
+        out.append(f"  | .{o} => .{arm_of[o]}")
+    out.append("\n/-- `binary_result`: operator ↦ operation (followed by `unwrap_or_overflow`) -/")
+    out.append("def binaryResultOp : BinaryOperator → Op")
+    for o in binary_ops:
+        out.append(f"  | .{o} => .{op_of[o]}")
+    out.append("\n/-- `require_non_negative` converts the shift count to this unsigned type; a negative count is\n"
+               "    `ReverseShifting`, one that does not fit is `Overflow` -/")
+    out.append(f"def shiftCountBits : Nat := {bits}\n")
+
+    def names(defname, what, vs):
+        out.append(f"/-- variants of `{what}`, in source order -/")
+        out.append(f"def {defname} : List String :=\n  [" + ", ".join(h.lean_str(v) for v in vs) + "]\n")
+
+    names("evalErrorVariants", "enum EvalError of eval.rs", eval_errors)
+    names("syntaxErrorVariants", "enum SyntaxError of ast.rs", syntax_errors)
+    names("tokenErrorVariants", "enum TokenError of token.rs", token_errors)
+    names("portabilityErrorVariants", "enum PortabilityError of ast/portability.rs", port_errors)
+
+    def rules(defname, doc, rs, ddef, d):
+        out.append(f"/-- {doc}: (prefix, is it stripped, radix), tried in this order -/")
+        out.append(f"def {defname} : List (List Char × Bool × Nat) :=\n  [" +
+                   ", ".join(f"({_chars(p)}, {'true' if st else 'false'}, {r})" for p, st, r in rs) + "]\n")
+        out.append("/-- the radix when no rule applies -/")
+        out.append(f"def {ddef} : Nat := {d}\n")
+
+    rules("constantRadixRules", "`Tokens::next_token` (token.rs): notation of a numeric constant", crules,
+          "constantDefaultRadix", cdefault)
+    rules("valueRadixRules", "`parse_integer` (eval.rs): notation of a variable value after the sign", vrules,
+          "valueDefaultRadix", vdefault)
+    out.append("/-- `convert_error_cause` (yash-semantics/src/expansion/initial/arith.rs): (group of yash_arith::ErrorCause,\n"
+               "    leaf variant, the shell's ErrorCause it becomes), one entry per arm, in source order -/")
+    out.append("def convertErrorCause : List (String × String × String) :=\n  [" +
+               ",\n   ".join(f"({h.lean_str(a)}, {h.lean_str(b)}, {h.lean_str(c)})" for a, b, c in conv) + "]\n")
+    out.append("/-- the variant the fallback arm (variants of a future yash-arith) produces -/")
+    out.append(f"def convertErrorCauseFallback : String := {h.lean_str(fallback)}\n")
+    out.append("/-- characters of a term besides `char::is_alphanumeric` (`next_token`) -/")
+    out.append("def termExtraChars : List Char := " + _chars("".join(extra)) + "\n")
+
+    text = "\n".join(out)
+    # the generated module imports ArithTables (operator enums): the import must precede the header line
+    # `h.write` emits, so the file is written here in the same format
+    import os
+    path = os.path.join(h.GEN, "ArithEvalTables.lean")
+    full = ("-- GENERATED by tools/extract_tables.py from /repo on every run; do not edit.\n"
+            "import YashModel.Generated.ArithTables\n"
+            f"namespace YashModel.Generated.ArithEvalTables\n\n{text}\nend YashModel.Generated.ArithEvalTables\n")
+    old = open(path).read() if os.path.exists(path) else None
+    if old != full:
+        with open(path, "w") as f:
+            f.write(full)
+        print(f"extract_tables: ArithEvalTables.lean {'updated' if old is not None else 'created'}")
+
+
+TABLES = {"ArithTables": arith_tables, "ArithEvalTables": arith_eval_tables}
